@@ -23,7 +23,7 @@ LEVEL = "exploration"
 SHARDS = {"quick": 16, "thorough": 16}
 FLOOR = {"quick": 100, "thorough": 2000}
 REQUIRED_COUNTERS = ["import_statements_scanned", "files_scanned", "runtime_files_compared", "import_audit_events",
-                     "modules_imported_generator_blocked", "nested_imports_scanned", "typed_map_wrappers_exercised"]
+                     "modules_imported_generator_blocked", "nested_imports_scanned", "typed_map_wrappers_exercised", "stale_core_scenarios"]
 RULE = ("C01's document grammar biased towards rarely emitted templates (typed/untyped additionalProperties wrappers, unions, "
         "enums) x 8 layouts; case = (document, layout); non-trivial = accepted, >=1 operation, >=2 schemas joined by a reference")
 ASSUMPTIONS = ["standard library = sys.stdlib_module_names of the probe interpreter (3.12)"]
@@ -172,8 +172,39 @@ def run_batch(ctx: Ctx, batch: list[dict]) -> None:
                     "import_events_sample": ia["import_events"][:12]})
 
 
+def stale_core_scenario(ctx: Ctx, n: int) -> None:
+    """A core directory left by an earlier generation (another client sharing it, or an older release) must be brought
+    back to the shipped runtime byte for byte by the next generation that uses it."""
+    rec = ctx.rec
+    root = ctx.scratch.new("stale")
+    for (pkg_a, pkg_b, core) in (("acme.client_a", "acme.client_b", "acme.shared.core"), ("client_a", "client_a", None), ("one.a", "two.b", "sharedcore")):
+        d1 = specgen.generate(ctx.rng, prof={"schemas": (2, 3), "ops": (1, 2)})
+        d2 = specgen.generate(ctx.rng, prof={"schemas": (2, 3), "ops": (1, 2)})
+        sub = root / (core or "embedded").replace(".", "_")
+        sub.mkdir(parents=True, exist_ok=True)
+        r1 = genrun.generate(d1.doc, sub, pkg_a, core, force=True, spec_path=genrun.write_spec(d1.doc, sub / "s1"))
+        if not r1.ok:
+            continue
+        core_dir = sub.joinpath(*(core or pkg_a + ".core").split("."))
+        for rf in ("http_transport.py", "auth/plugins.py", "utils.py"):
+            f = core_dir / rf
+            f.write_text(f.read_text() + "\n# left over from an older release\nSTALE_MARKER = 1\n")
+        r2 = genrun.generate(d2.doc, sub, pkg_b, core, force=True, spec_path=genrun.write_spec(d2.doc, sub / "s2"))
+        case = {"scenario": "stale_core", "packages": [pkg_a, pkg_b], "core": core, "doc": d2.doc}
+        rec.case(case, nontrivial=True)
+        rec.count("stale_core_scenarios")
+        if not r2.ok:
+            continue
+        for r in RUNTIME:
+            rec.count("runtime_files_compared")
+            src, dst = common.REPO_SRC / "pyopenapi_gen" / "core" / r, core_dir / r
+            if not dst.exists() or dst.read_bytes() != src.read_bytes():
+                rec.violation(f"runtime:stale_core_not_refreshed:{r}", ["always", "stale_core"], case, f"{dst} differs from the shipped {r} after regeneration")
+
+
 def run_shard(ctx: Ctx) -> None:
     common.use_repo()
+    stale_core_scenario(ctx, ctx.shard)
     total = 30 if ctx.quick else 700
     bs = 10
     for b in range(0, total, bs):
@@ -188,6 +219,9 @@ def run_shard(ctx: Ctx) -> None:
 def replay(ctx: Ctx, file: dict) -> None:
     common.use_repo()
     c = file["case"]
+    if c.get("scenario") == "stale_core":
+        stale_core_scenario(ctx, 0)
+        return
     li = [i for i, l in enumerate(c01.LAYOUTS) if [l[0], l[1]] == c["layout"]]
     d = specgen.Doc(c["doc"], {}, [], set())
     run_batch(ctx, [{"doc": d, "layout": li[0] if li else 0, "strategy": c.get("strategy", "operationId"), "n": 1}])
